@@ -126,6 +126,18 @@ def run(ctx):
                 chk.ob("editor/invariant-before-call/%s/%s" % (m, t["f"]["res"].rsplit("::", 1)[-1]), not bad,
                        "the invariant holds where a sibling method (which relies on it) is called", "%s:%s" % (b.file, t.get("ln")),
                        bad[0] if bad else lst[0][1])
+        site_bbs = {s_["bb"] for s_ in sites if s_["fn"].endswith("::" + m)}
+        seen_c = {}
+        for bb, lst in zs[m].items():
+            t = b.blocks[bb]["t"]
+            if t["k"] == "call" and not str(t["f"].get("res", "")).startswith(IS + "::") and bb not in site_bbs:
+                callee = str(t["f"].get("res") or t["f"].get("def")).rsplit("::", 1)[-1]
+                seen_c[callee] = seen_c.get(callee, 0) + 1
+                bad = [d for ok, d in lst if not ok]
+                chk.ob("editor/callee-contract/%s/%s#%d" % (m, callee, seen_c[callee] - 1), not bad,
+                       "a library routine that slices its argument is called within its contract on every path",
+                       "%s:%s" % (b.file, t.get("ln")), bad[0] if bad else "%s (on %d paths)" % (lst[0][1], len(lst)),
+                       "zone analysis with character counts and character-boundary byte offsets, all paths")
         chk.ob("editor/invariant-at-exit/%s" % m, not exits[m],
                "the method re-establishes the editor invariant on every path", b.loc(), "; ".join(exits[m][:2]))
     # the constructor establishes it
